@@ -225,6 +225,7 @@ type Runner struct {
 	spy     *trieSpy // new small: observes the hash-trie writer (verif hook hashtrie.VerifPeek)
 	pspy    *pipeSpy // new pipe: observes what FeedPipeline reads out of the ChunkPipe
 	shape   string   // new feed: plain | dataerr | one | half | halfdataerr | chunk<k>
+	leaves  bool     // new small: a `leaves` op wrote to the hash-trie writer directly; `sum` is then the trie's Sum
 }
 
 // total is the length of the content; slice its bytes [at, at+n).
@@ -606,10 +607,15 @@ type trieSpy struct {
 	h    uint64
 	last string
 	buf  int
+	// what the writer was given (for the span oracle): reference -> span of every accepted leaf,
+	// the uint64 sum of the spans, and whether one reference came with two different spans
+	leafSpan  map[string]uint64
+	total     uint64
+	ambiguous bool
 }
 
 func newTrieSpy(w pipeline.ChainWriter) *trieSpy {
-	t := &trieSpy{w: w}
+	t := &trieSpy{w: w, leafSpan: map[string]uint64{}}
 	t.snap()
 	t.n, t.h = 0, 0
 	return t
@@ -638,7 +644,19 @@ func (t *trieSpy) snap() {
 }
 
 func (t *trieSpy) ChainWrite(p *pipeline.PipeWriteArgs) error {
+	ref := string(append(append([]byte(nil), p.Ref...), p.Key...))
+	var span uint64
+	if len(p.Span) == 8 {
+		span = binary.LittleEndian.Uint64(p.Span)
+	}
 	err := t.w.ChainWrite(p)
+	if err == nil {
+		if old, ok := t.leafSpan[ref]; ok && old != span {
+			t.ambiguous = true
+		}
+		t.leafSpan[ref] = span
+		t.total += span
+	}
 	t.snap()
 	return err
 }
@@ -653,6 +671,50 @@ func (t *trieSpy) flush() string {
 	s := fmt.Sprintf(" cw=%d %s h=%016x", t.n, t.last, t.h)
 	t.n, t.h = 0, 0
 	return s
+}
+
+// checkSpans: the span oracle of the hash-trie writer (model-free; plain 32-byte references).  The leaves are
+// what the spy saw going into the writer; every other reference must be a stored intermediate chunk
+// `le64 span ‖ child references`.  Clauses: the span header of every stored intermediate chunk is the uint64
+// sum of its children's spans; the root's span is the uint64 sum of all leaf spans.
+func (rn *Runner) checkSpans(ctx *core.Ctx, root []byte) {
+	t := rn.spy
+	if t == nil || t.ambiguous || len(root) != 32 {
+		return
+	}
+	bad := false
+	var spanOf func(ref []byte, depth int) (uint64, bool)
+	spanOf = func(ref []byte, depth int) (uint64, bool) {
+		if sp, ok := t.leafSpan[string(ref)]; ok {
+			return sp, true
+		}
+		d, ok := rn.st.m[string(ref)]
+		if !ok || len(d) < 8 || (len(d)-8)%32 != 0 || depth > 9 {
+			if !bad {
+				ctx.Fail("trie-chunk-missing", "reference %x is neither a leaf given to the hash-trie writer nor a stored intermediate chunk (stored=%v, %d bytes)", ref, ok, len(d))
+			}
+			bad = true
+			return 0, false
+		}
+		hdr := binary.LittleEndian.Uint64(d[:8])
+		var sum uint64
+		for i := 8; i < len(d); i += 32 {
+			sp, ok := spanOf(d[i:i+32], depth+1)
+			if !ok {
+				return 0, false
+			}
+			sum += sp
+		}
+		if hdr != sum && !bad {
+			bad = true
+			ctx.Fail("trie-intermediate-span-not-children-sum", "stored intermediate chunk %x (%d children, depth %d) has span %d, its children's spans add up to %d", ref, (len(d)-8)/32, depth, hdr, sum)
+		}
+		return hdr, true
+	}
+	sp, ok := spanOf(root, 0)
+	if ok && sp != t.total {
+		ctx.Fail("trie-root-span-not-leaf-sum", "the root %x carries span %d, the %d distinct leaves given to the writer add up to %d", root, sp, len(t.leafSpan), t.total)
+	}
 }
 
 func smallPipeline(ctx context.Context, s storage.Putter, c, b int) (pipeline.Interface, *trieSpy) {
@@ -975,6 +1037,34 @@ func (rn *Runner) Step(ctx *core.Ctx, op []string) string {
 		return "nofile"
 	}
 	switch {
+	case len(op) == 4 && op[0] == "leaves":
+		// n ChainWrite calls on the REAL hash-trie writer with a caller-chosen span and synthetic references
+		n, ok1 := atoi(op[1])
+		span, e2 := strconv.ParseUint(op[2], 10, 64)
+		seed, e3 := strconv.ParseUint(op[3], 10, 32)
+		if !ok1 || e2 != nil || e3 != nil || n < 1 || n > 20000 {
+			return "bad-op"
+		}
+		if rn.mode != modeSmall {
+			return "noleaves"
+		}
+		if rn.summed {
+			return "summed"
+		}
+		if rn.failed {
+			return "err"
+		}
+		rn.leaves = true
+		refs := core.GenBytes(seed, 32*n, 0)
+		var sp [8]byte
+		binary.LittleEndian.PutUint64(sp[:], span)
+		for i := 0; i < n; i++ {
+			if err := rn.spy.ChainWrite(&pipeline.PipeWriteArgs{Span: append([]byte(nil), sp[:]...), Ref: append([]byte(nil), refs[32*i:32*i+32]...)}); err != nil {
+				rn.failed = true
+				return "err"
+			}
+		}
+		return strconv.Itoa(n) + rn.spy.flush()
 	case (len(op) == 2 && op[0] == "write") || (len(op) == 3 && op[0] == "writeseg"):
 		if rn.summed {
 			return "summed"
@@ -1034,6 +1124,8 @@ func (rn *Runner) Step(ctx *core.Ctx, op []string) string {
 			}
 		} else if rn.mode == modeFeed {
 			sum, err = rn.sumFeed(ctx)
+		} else if rn.leaves {
+			sum, err = rn.spy.Sum() // the feeder is bypassed: the tree is what the trie writer was given
 		} else {
 			sum, err = rn.p.Sum()
 		}
@@ -1054,6 +1146,16 @@ func (rn *Runner) Step(ctx *core.Ctx, op []string) string {
 			// the random keys / padding bytes, read back for the model
 			rn.walkEnc(ctx, sum, 0, c, b)
 			return fmt.Sprintf("ok %s %d %016x", hex.EncodeToString(sum), rn.st.NPuts, rn.st.Dig)
+		}
+		if rn.spy != nil {
+			rn.checkSpans(ctx, sum)
+		}
+		if rn.leaves {
+			rs := "-"
+			if d, ok := rn.st.m[string(sum)]; ok && len(d) >= 8 {
+				rs = strconv.FormatUint(binary.LittleEndian.Uint64(d[:8]), 10)
+			}
+			return fmt.Sprintf("ok %s %d %016x", hex.EncodeToString(sum), rn.st.NPuts, rn.st.Dig) + rn.spy.flush() + " rs=" + rs
 		}
 		if rn.Prop == "C02" {
 			// model-free: the reference is the format's tree hash of the bytes …
